@@ -35,6 +35,22 @@ def canary_variants(b, scratch):
     return outs
 
 
+def module_path(b, label):
+    """the `mod` nesting of an extracted region in the emitted file (Verus' --verify-function needs the module)"""
+    start = [a for (l, a, z, props, exact) in b.regions if l == label][0]
+    stack, depth = [], 0
+    for ln in b.lines[:start - 1]:
+        code = ln.split("//")[0]
+        m = re.search(r"\bmod\s+(\w+)\s*\{", code)
+        opens, closes = code.count("{"), code.count("}")
+        if m:
+            stack.append((m.group(1), depth))
+        depth += opens - closes
+        while stack and depth <= stack[-1][1]:
+            stack.pop()
+    return [n for n, d in stack]
+
+
 def splice_tag():
     import splice
     return splice.LTAG
@@ -48,16 +64,29 @@ def run(b, scratch, pid, seed, failures):
 
     def one(lc):
         label, c = lc
-        r = U.run_verus(c, extra=["--verify-root", "--verify-function", "*" + label.split("::")[-1]])
+        name = label
+        if "#" in label:
+            # a lifted closure: the function is named in the unit's `lift` header
+            hdr = (getattr(b, "cfg", {}) or {}).get("lift", {}).get(label, {}).get("header", "")
+            m = re.search(r"\bfn\s+(\w+)", hdr)
+            name = m.group(1) if m else label.split("#")[0]
+        mods = module_path(b, label)
+        # inside a nested module Verus' --verify-function does not find the function: the whole (small) module is verified instead
+        r = U.run_verus(c, extra=(["--verify-module", "::".join(mods)] if mods else ["--verify-root", "--verify-function", "*" + name]))
         vr = (r["json"] or {}).get("verification-results") or {}
+        raw = " ".join(r.get("raw", [])) + " ".join(d.get("message", "") for d in r.get("diags", []))
+        if "could not find function" in raw or "more than one" in raw or not vr:
+            return label, None, vr
         return label, vr.get("errors", 0) > 0, vr
 
-    vacuous = []
+    vacuous, notrun = [], []
     with ThreadPoolExecutor(max_workers=8) as ex:
         for label, failed, vr in ex.map(one, variants):
-            if not failed:
+            if failed is None:
+                notrun.append(label)
+            elif not failed:
                 vacuous.append(label)
-    out["canaries"] = {"functions": len(variants), "refuted_as_expected": len(variants) - len(vacuous), "vacuous": vacuous,
+    out["canaries"] = {"functions": len(variants), "refuted_as_expected": len(variants) - len(vacuous) - len(notrun), "vacuous": vacuous, "canary_could_not_be_run": notrun,
                        "meaning": "`ensures false` added to one function at a time must be refuted; a pass would mean contradictory preconditions/invariants or an unreachable exit"}
     if vacuous and not failures:
         out["undecided"].append("vacuous contract (ensures false verifies) for: %s" % ", ".join(vacuous))
